@@ -55,8 +55,11 @@ QJsonObject generate()
     cfg["startup"] = startup;
     cfg["daily"] = daily;
     cfg["compress"] = compress;
-    static const char *names[] = { "app.log", "app.log", "applog", "a+b.log" };
-    cfg["name"] = names[pick(0, 3)];
+    // the last name is so long (247 bytes) that every rotated name exceeds NAME_MAX: each rotation attempt fails as a whole
+    // (rename, link and the copy fallback all get ENAMETOOLONG from the kernel, no injection involved)
+    static const std::string longName = std::string(243, 'L') + ".log";
+    static const char *names[] = { "app.log", "app.log", "applog", "a+b.log", "app.log", "applog", longName.c_str() };
+    cfg["name"] = names[pick(0, 6)];
     QJsonObject c;
     c["cfg"] = cfg;
     QJsonArray prefix;
@@ -238,7 +241,7 @@ std::vector<TraceLine> readTrace(const std::string &path)
 }
 
 // child: fresh sink on `dir`, one armed write + flush; returns exit status (77 = crashed at the point)
-int runChild(const Cfg &cfg, const std::string &dir, const QString &text, int crashAt, int failAt, int failErrno, const std::string &tracePath)
+int runChild(const Cfg &cfg, const std::string &dir, const QString &text, int crashAt, int failAt, int failErrno, const std::string &tracePath, int stickyErrno = 0)
 {
     fflush(nullptr);
     pid_t pid = fork();
@@ -252,6 +255,7 @@ int runChild(const Cfg &cfg, const std::string &dir, const QString &text, int cr
         QMessageLogContext ctx("f.cpp", 1, "f", "c");
         LogMessage m(QtInfoMsg, ctx, text);
         verif_shim_arm(crashAt, failAt, failErrno, tfd);
+        if (stickyErrno) verif_shim_sticky(stickyErrno);
         sink->send(m);
         sink->flush();
         verif_shim_disarm();
@@ -332,7 +336,7 @@ std::string run(const QJsonObject &c)
         if (!d.empty()) { verif_clock_enable(false); return d; }
     }
 
-    struct Variant { int crashAt, failAt, err; };
+    struct Variant { int crashAt, failAt, err; int sticky = 0; };
     std::vector<Variant> variants;
     for (int k = 1; k <= K; k++) variants.push_back({ k, -1, 0 });
     std::vector<Variant> failVariants;
@@ -343,20 +347,26 @@ std::string run(const QJsonObject &c)
         if (t.call == "renameat2") { failVariants.push_back({ -1, t.k, EINVAL }); failVariants.push_back({ -1, t.k, ENOSYS }); }
     }
     for (auto &v : failVariants) variants.push_back(v);
+    // the whole operation failing, not one call of it: while the write runs the directory refuses every rename / link / unlink and
+    // every creation of a new file (what a directory without write permission, a read-only remount or a full disk look like to Qt,
+    // whose QFile::rename falls back from renameat2 to link+unlink to copy+remove before it gives up)
+    if (rotated)
+        for (int e : { EACCES, EROFS, ENOSPC }) variants.push_back({ -1, -1, e, e });
 
     std::string failure;
-    long children = 1, insideRotation = 0;
+    long children = 1, insideRotation = 0, stickyRuns = 0;
     auto runVariant = [&](const Variant &v) -> std::string {
         copyDir(tmpl, work);
         const bool wantTrace = c["deep"].toBool() && v.failAt > 0 && v.crashAt < 0;
-        int st = runChild(cfg, work, triggerText, v.crashAt, v.failAt, v.err, wantTrace ? tracePath : std::string());
+        int st = runChild(cfg, work, triggerText, v.crashAt, v.failAt, v.err, wantTrace ? tracePath : std::string(), v.sticky);
         children++;
-        const std::string label = (v.crashAt > 0 ? "crash before call #" + std::to_string(v.crashAt) : std::string())
+        if (v.sticky) stickyRuns++;
+        const std::string label = v.sticky ? "every rename/link/unlink/create of the rotating write failing with errno " + std::to_string(v.sticky) + " (directory not writable)" : ((v.crashAt > 0 ? "crash before call #" + std::to_string(v.crashAt) : std::string())
                 + (v.failAt > 0 ? std::string(v.crashAt > 0 ? " with " : "") + "call #" + std::to_string(v.failAt) + " (" + trace[size_t(v.failAt - 1)].call + ") failing with errno " + std::to_string(v.err) : std::string())
-                + " of " + std::to_string(K);
+                + " of " + std::to_string(K));
         if (v.crashAt > 0 && st != 77 && st != 0) return label + ": child ended with status " + std::to_string(st);
         if (v.crashAt < 0 && st != 0) return label + ": child ended with status " + std::to_string(st) + " (the sink must survive a failing call)";
-        const int point = v.crashAt > 0 ? v.crashAt : v.failAt;
+        const int point = v.sticky ? firstRename : (v.crashAt > 0 ? v.crashAt : v.failAt);
         if (rotated && point >= firstRename && (lastOpen < 0 || point <= lastOpen)) insideRotation++;
         stampFresh(work, now);
         // stage 1: right after the crash / failure
@@ -438,6 +448,8 @@ std::string run(const QJsonObject &c)
     count("crash_points_enumerated", K);
     count("failure_injections", long(failVariants.size()));
     count("deep_fail_plus_crash_runs", deepChildren);
+    count("whole_operation_failure_runs", stickyRuns);
+    cls("name_too_long_for_rotation", cfg.name.size() > 200);
     count("points_strictly_inside_rotation", insideRotation);
     cls("trigger_rotates", rotated);
     cls("compression", cfg.compress);
@@ -448,9 +460,9 @@ std::string run(const QJsonObject &c)
         auto &st = stats();
         const uint64_t base = fnv(QJsonDocument(c).toJson(QJsonDocument::Compact));
         for (auto &v : variants) {
-            const int point = v.crashAt > 0 ? v.crashAt : v.failAt;
+            const int point = v.sticky ? firstRename : (v.crashAt > 0 ? v.crashAt : v.failAt);
             if (point >= firstRename && (lastOpen < 0 || point <= lastOpen))
-                st.nontrivial.insert(base ^ (uint64_t(point) * 1000003ULL) ^ (uint64_t(v.err + 1) << 40) ^ (v.crashAt > 0 ? 0x9e3779b97f4a7c15ULL : 0));
+                st.nontrivial.insert(base ^ (uint64_t(point) * 1000003ULL) ^ (uint64_t(v.err + 1) << 40) ^ (v.crashAt > 0 ? 0x9e3779b97f4a7c15ULL : 0) ^ (v.sticky ? 0x51ed270b5ULL : 0));
         }
     }
     auto &st = stats();
